@@ -1006,11 +1006,13 @@ def gen_batching(seed, mode="loop"):
         for _ in range(n + 2):
             steps.append([])
 
-    if r.random() < 0.7:
+    if use_timeout:
+        sc.main += [("bsize", T, r.choice([0, 0, 64])), ("btimeout", T, r.choice([3000000, 5000000]))]
+    elif r.random() < 0.7:
         sc.main.append(("bsize", T, r.choice([0, 1, 2, 3, 7, 2, 3])))
-    for phase in range(r.randrange(3, 10)):
+    for phase in range(r.randrange(3, 10) if not use_timeout else r.randrange(2, 5)):
         x = r.random()
-        if x < 0.2:
+        if x < 0.2 and not use_timeout:
             steps.append([("bsize", T, r.choice([0, 1, 2, 3, 7, 64]))])
         elif x < 0.3 and use_timeout:
             if r.random() < 0.5:
@@ -1055,7 +1057,8 @@ def gen_batching(seed, mode="loop"):
         steps.append(ops)
         settle(n)
         if use_timeout:
-            steps.append([("sleep", 6000)])
+            for _ in range(5):
+                steps.append([("sleep", 7000)])
             settle(1)
     driven_finish(sc, steps, rng=r)
     finalize_main(sc)
